@@ -108,19 +108,15 @@ pub fn convert_here(conv: usize, vals: Vec<u64>, clock_id: u64) -> Outcome {
                 Ok(dump_raw(&r))
             }
             _ => {
-                let l = gen_lef_for_import(&mut t);
                 // sometimes into a pre-supplied, PDK-style layer set (numbers with gaps, some names already present)
-                let pre = if t.chance(1, 3) {
+                let (l, pre) = gen_lef_import_case(&mut t);
+                let pre = pre.map(|v| {
                     let mut ls = raw::Layers::default();
-                    for (num, name) in [(64i16, "nwell"), (67, "li1"), (68, "met1"), (70, "met3"), (235, "prBoundary")] {
-                        if t.chance(2, 3) {
-                            ls.add(raw::Layer::new(num, name));
-                        }
+                    for (num, name) in v {
+                        ls.add(raw::Layer::new(num, name));
                     }
-                    Some(layout21raw::utils::Ptr::new(ls))
-                } else {
-                    None
-                };
+                    layout21raw::utils::Ptr::new(ls)
+                });
                 let rawlib = raw::lef::LefImporter::import(&l, pre).map_err(|e| format!("{:?}", e))?;
                 let mut d = dump_raw(&rawlib);
                 let back = raw::lef::LefExporter::export(&rawlib).map_err(|e| format!("{:?}", e))?;
@@ -226,7 +222,7 @@ impl Check for C20 {
                     let _ = crate::gen_tetris::gen_tetris(&mut wt);
                 }
                 _ => {
-                    gen_lef_for_import(&mut wt);
+                    gen_lef_import_case(&mut wt);
                 }
             });
             wt.used()
@@ -268,7 +264,7 @@ impl Check for C20 {
                     let _ = crate::gen_tetris::gen_tetris(&mut dt);
                 }
                 _ => {
-                    gen_lef_for_import(&mut dt);
+                    gen_lef_import_case(&mut dt);
                 }
             });
             dt.used()
